@@ -226,6 +226,8 @@ fn main() {
             let corpus: Vec<Vec<Atom>> = vec![vec![], vec![star(vec![])], vec![star(vec![(e(), 1), (e(), 2)]), star(vec![(e(), 0)]), star(vec![(e(), 0), (e(), 1)])],
                 vec![star(vec![(e(), 0)])], vec![star(vec![(e(), 1), (e(), 1)]), star(vec![(e(), 0), (e(), 0)])], vec![star(vec![(BondKind::Up, 1)]), star(vec![(BondKind::Up, 0)])]];
             for g in corpus { cases.push(walk_case(&g)); bump("corpus") }
+            // complete graphs, each written many times: output that depends on a hash seed shows up as a difference between copies and from the model
+            for k in 4usize..=7 { let g: Vec<Atom> = (0..k).map(|i| star((0..k).filter(|j| *j != i).map(|j| (e(), j)).collect())).collect(); for _ in 0..40 { cases.push(walk_case(&g)) } bump("corpus-complete-graphs") }
             // one neighbour listed k times, with and without its counterpart
             for k in [2usize, 24, 25, 26, 63, 64, 65, 255, 256, 257, 300] {
                 cases.push(walk_case(&[star((0..k).map(|_| (e(), 1)).collect()), star(vec![(e(), 0)])])); 
